@@ -16,7 +16,8 @@ each holding its continuation.
     `try`, inside `try: B finally: F` the function `fun e => fin (.raise e)` where `fin k` is the translation of `F`
     followed by `k`.  `fin` is also wrapped around the normal end of `B`, every `return` and every `raise` of `B`;
   * `for item in source:` over the synchronous iterable and `for _ in range(n):` become auxiliary definitions by
-    structural recursion (`<method>_for<i>`), on the list of items resp. on the NUMBER of iterations
+    structural recursion (`<method>_for<i>`; every evaluation of the loop head is marked `.iter`: it ends a synchronous
+    segment like an await does), on the list of items resp. on the NUMBER of iterations
     (`PyChan.rangeCount n`; a body that reads the loop variable of a `range` loop, or any local other than the loop
     variable, is refused);
   * `asyncio.ensure_future(self._flush_queue())` is `.ensureFlush`;
@@ -429,7 +430,7 @@ class Method:
             loop.nxt = lambda dd: "(%s k rest)" % aux
             body = self.block(list(st.body), {x: "item"}, loop, 2)
             self.aux.append("/- the loop `for %s in %s:` of %s (line %d): `k` is what follows the loop -/\n"
-                            "def %s (k : Co) : List Item → Co\n  | [] => k\n  | %s :: rest =>%s%s\n\n"
+                            "def %s (k : Co) : List Item → Co\n  | [] => .iter k\n  | %s :: rest => .iter%s%s\n\n"
                             % (x, it.id, self.fn.name, st.lineno, aux, lname(x), ind(2), body))
             return "(%s%s%s%s%s)" % (aux, ind(d + 1), self.block(rest, env, ctx, d + 1), ind(d + 1), lname(it.id))
         if isinstance(it, ast.Call) and isinstance(it.func, ast.Name) and it.func.id == "range" and len(it.args) == 1 \
@@ -438,7 +439,7 @@ class Method:
             body = self.block(list(st.body), {}, loop, 2)       # the loop variable is NOT in scope: reading it is refused
             self.aux.append("/- the loop `for %s in %s:` of %s (line %d), by the number of iterations left; "
                             "`k` is what follows the loop -/\n"
-                            "def %s (k : Co) : Nat → Co\n  | 0 => k\n  | n + 1 =>%s%s\n\n"
+                            "def %s (k : Co) : Nat → Co\n  | 0 => .iter k\n  | n + 1 => .iter%s%s\n\n"
                             % (x, ast.unparse(it), self.fn.name, st.lineno, aux, ind(2), body))
             return self.expr(it.args[0], env, d, lambda n, t: (
                 "(%s%s%s%s(PyChan.rangeCount %s))" % (aux, ind(d + 1), self.block(rest, env, ctx, d + 1), ind(d + 1), n)
